@@ -51,7 +51,8 @@ EndTag(w, id) ==
                                !.wbuf = SubSeq(@, 1, top.start) \o id \o sf.bytes \o SubSeq(@, top.start + 1, Len(@))])
 
 RECURSIVE WriteOp(_, _, _)
-RECURSIVE WriteKids(_, _, _, _)
+RECURSIVE WriteKids(_, _, _, _, _)
+KidK(k) == IF k.kind \in {"full", "start", "end"} THEN k.kind ELSE "elem"
 \* one tag, without the final hand-over
 WriteOp(sch, w, op) ==
   LET ty == TypeOf(sch, op.id) IN
@@ -65,19 +66,23 @@ WriteOp(sch, w, op) ==
     ELSE LET w1 == [w EXCEPT !.open = Append(@, [id |-> op.id, known |-> TRUE, start |-> Len(w.wbuf), width |-> op.width])] IN
       IF op.k = "start" THEN Res("ok", w1)
       ELSE \* "full": Start, children (default options), End - all or nothing
-        LET kw == WriteKids(sch, w1, op.kids, 1) IN
+        LET kw == WriteKids(sch, w1, op.kids, 1, Len(w.open)) IN
         IF kw.res # "ok" THEN Res(kw.res, w)
+        ELSE IF Len(kw.w.open) # Len(w1.open) THEN Res("closing", w)           \* a Start child was left open
         ELSE LET e == EndTag(kw.w, op.id) IN IF e.res = "ok" THEN e ELSE Res(e.res, w)
   ELSE IF ty = "raw" /\ ~WellFormedId(op.id) THEN Res("id", w)
   ELSE LET pl == PayloadOf(ty, op.val)  sf == SizeField(Len(pl), op.width) IN
     IF sf.t # "ok" THEN Res("size", w)
     ELSE Res("ok", [w EXCEPT !.wbuf = @ \o op.id \o sf.bytes \o pl])
-WriteKids(sch, w, kids, i) ==
+\* children of a Full item: complete tags, or Start ... End runs of their own; an End child can only end a master that an
+\* earlier child started - never the Full master itself or anything that was open before the call (`base` masters)
+WriteKids(sch, w, kids, i, base) ==
   IF i > Len(kids) THEN Res("ok", w)
-  ELSE LET k == kids[i]
-           r == WriteOp(sch, w, [k |-> IF k.kind = "full" THEN "full" ELSE "elem", id |-> k.id, ty |-> k.ty, val |-> k.val,
-                                width |-> 0, unknown |-> FALSE, kids |-> k.kids]) IN
-       IF r.res # "ok" THEN r ELSE WriteKids(sch, r.w, kids, i + 1)
+  ELSE LET k == kids[i] IN
+       IF k.kind = "end" /\ Len(w.open) <= base + 1 THEN Res("closing", w)
+       ELSE LET r == WriteOp(sch, w, [k |-> KidK(k), id |-> k.id, ty |-> k.ty, val |-> k.val,
+                                     width |-> 0, unknown |-> FALSE, kids |-> k.kids]) IN
+            IF r.res # "ok" THEN r ELSE WriteKids(sch, r.w, kids, i + 1, base)
 
 \* close every open master, innermost first; stops at the first master whose size does not fit its width
 RECURSIVE CloseAll(_)
